@@ -6,36 +6,124 @@ addresses and lengths over all naturals in the ranges of their Rust types.
 -/
 namespace Pelite.Pe
 
+-- the statements are fixed; `hw` of `C05_read_eq_slice*` makes `imageBase + r` a representable `Va`
+-- but is not needed by the proof (the model computes on `Nat`)
+set_option linter.unusedVariables false
+
 /-- the view's VA space does not wrap: `image_base + SizeOfImage` is representable in `Va` -/
 def View.NoWrap (v : View) : Prop := v.imageBase + sizeOfImage v.b < v.fmt.vaLimit
 
 /-- rva → va → rva is the identity on (0, SizeOfImage). -/
 theorem C05_rva_va_rva (v : View) (hw : v.NoWrap) (r : Nat) (h0 : 0 < r) (h1 : r < sizeOfImage v.b) :
     v.rvaToVa r = .ok (v.imageBase + r) ∧ v.vaToRva (v.imageBase + r) = .ok r := by
-  sorry
+  unfold View.NoWrap at hw
+  unfold View.rvaToVa View.vaToRva
+  refine ⟨?_, ?_⟩
+  · rw [if_neg (by omega), if_pos h1, if_pos (by omega)]
+  · rw [if_neg (by omega), if_neg (by omega), Nat.add_sub_cancel_left]
 
 /-- va → rva → va is the identity on (base, base + SizeOfImage). -/
 theorem C05_va_rva_va (v : View) (hw : v.NoWrap) (va r : Nat) (h : v.vaToRva va = .ok r)
     (h0 : 0 < r) (h1 : r < sizeOfImage v.b) : v.rvaToVa r = .ok va := by
-  sorry
+  unfold View.NoWrap at hw
+  unfold View.vaToRva at h
+  unfold View.rvaToVa
+  by_cases hz : va = 0
+  · rw [if_pos hz] at h; cases h
+  · rw [if_neg hz] at h
+    by_cases hb : va < v.imageBase ∨ va - v.imageBase > sizeOfImage v.b
+    · rw [if_pos hb] at h; cases h
+    · rw [if_neg hb] at h
+      cases h
+      have e : v.imageBase + (va - v.imageBase) = va := by omega
+      rw [if_neg (by omega), if_pos h1, e, if_pos (by omega)]
 
 /-- When the VA space would wrap, `rva_to_va` reports `Overflow` (it neither panics nor wraps). -/
 theorem C05_rva_to_va_total (v : View) (r : Nat) :
     (∃ va, v.rvaToVa r = .ok va ∧ va < v.fmt.vaLimit) ∨ (∃ e, v.rvaToVa r = .err e) := by
-  sorry
+  unfold View.rvaToVa
+  by_cases hz : r = 0
+  · rw [if_pos hz]; exact .inr ⟨_, rfl⟩
+  · rw [if_neg hz]
+    by_cases h1 : r < sizeOfImage v.b
+    · rw [if_pos h1]
+      by_cases h2 : v.imageBase + r < v.fmt.vaLimit
+      · rw [if_pos h2]; exact .inl ⟨_, rfl, h2⟩
+      · rw [if_neg h2]; exact .inr ⟨_, rfl⟩
+    · rw [if_neg h1]; exact .inr ⟨_, rfl⟩
 
 /-- A mapped view slices the buffer at offset `rva`: exact success condition and result. -/
 theorem C05_view_slice_iff (v : View) (hk : v.kind = .view) (r n a : Nat) (ref : Ref) :
     v.slice r n a = .ok ref ↔
       r ≠ 0 ∧ isPow2 a = true ∧ (v.img.base + r) % a = 0 ∧ r ≤ v.img.bytes.size ∧
       n ≤ v.img.bytes.size - r ∧ ref = ⟨r, v.img.bytes.size - r, a⟩ := by
-  sorry
+  unfold View.slice
+  rw [hk]
+  show sliceSection v.img r n a = .ok ref ↔ _
+  rw [sliceSection_eq]
+  by_cases h0 : r = 0
+  · simp [h0]
+  · rw [if_neg h0]
+    by_cases hp : isPow2 a = true
+    · rw [if_pos hp]
+      by_cases ha : (v.img.base + r) % a = 0
+      · rw [if_pos ha]
+        by_cases hb : r ≤ v.img.bytes.size ∧ v.img.bytes.size - r ≥ n
+        · rw [if_pos hb]
+          simp only [Out.ok.injEq, ne_eq, h0, not_false_eq_true, hp, ha, hb.1, true_and]
+          exact ⟨fun h => ⟨hb.2, h.symm⟩, fun h => h.2.symm⟩
+        · rw [if_neg hb]
+          constructor
+          · intro h; cases h
+          · intro h; exact absurd ⟨h.2.2.2.1, h.2.2.2.2.1⟩ hb
+      · rw [if_neg ha]
+        constructor
+        · intro h; cases h
+        · intro h; exact absurd h.2.2.1 ha
+    · rw [if_neg hp]
+      constructor
+      · intro h; cases h
+      · intro h; exact absurd h.2.1 hp
 
 /-- Reading at virtual address B + r returns exactly what slicing at RVA r returns — same reference,
-same error — for file views and mapped views. -/
+same error — for file views and mapped views.  When `a` is not a power of two both primitives panic
+(the `debug_assert!` of `aligned_to`); the model's panic *site strings* differ (`read_*:aligned_to`
+vs `slice_*:aligned_to`), a diagnostic that the property does not compare: hence the second disjunct.
+Plain equality fails there only for that reason, e.g. on
+`v = ⟨⟨Array.replicate 80 0 ++ #[2], 0⟩, .pe32, .view, 0⟩` (SizeOfImage = 2), `r = 1, n = 0, a = 0`
+(`C05_read_eq_slice_sites_differ`). -/
 theorem C05_read_eq_slice (v : View) (hw : v.NoWrap) (r n a : Nat) (h0 : 0 < r) (h1 : r < sizeOfImage v.b) :
+    v.read (v.imageBase + r) n a = v.slice r n a ∨
+    (∃ s1 s2, v.read (v.imageBase + r) n a = .panic s1 ∧ v.slice r n a = .panic s2) := by
+  unfold View.read View.slice
+  cases v.kind
+  · obtain ⟨hA, hB⟩ := readFile_vs_sliceFile v.img v.secs v.imageBase (sizeOfImage v.b) r n a h0 (by omega)
+    by_cases hp : isPow2 a = true
+    · exact .inl (hA hp)
+    · exact .inr ⟨_, _, (hB hp).1, (hB hp).2⟩
+  · obtain ⟨hA, hB⟩ := readSection_vs_sliceSection v.img v.imageBase (sizeOfImage v.b) r n a h0 (by omega)
+    by_cases hp : isPow2 a = true
+    · exact .inl (hA hp)
+    · exact .inr ⟨_, _, (hB hp).1, (hB hp).2⟩
+
+/-- For every alignment a Rust type can have (a power of two) the two answers are equal outright. -/
+theorem C05_read_eq_slice_pow2 (v : View) (hw : v.NoWrap) (r n a : Nat) (h0 : 0 < r)
+    (h1 : r < sizeOfImage v.b) (hp : isPow2 a = true) :
     v.read (v.imageBase + r) n a = v.slice r n a := by
-  sorry
+  unfold View.read View.slice
+  cases v.kind
+  · exact (readFile_vs_sliceFile v.img v.secs v.imageBase (sizeOfImage v.b) r n a h0 (by omega)).1 hp
+  · exact (readSection_vs_sliceSection v.img v.imageBase (sizeOfImage v.b) r n a h0 (by omega)).1 hp
+
+/-- The instance on which the panic site strings differ (so plain equality without `isPow2 a` is false
+of the model; both sides are panics). -/
+theorem C05_read_eq_slice_sites_differ :
+    let v : View := ⟨⟨Array.replicate 80 0 ++ #[2], 0⟩, .pe32, .view, 0⟩
+    v.NoWrap ∧ sizeOfImage v.b = 2 ∧ v.read (v.imageBase + 1) 0 0 = .panic "read_section:aligned_to" ∧
+    v.slice 1 0 0 = .panic "slice_section:aligned_to" := by
+  intro v
+  unfold View.NoWrap
+  decide
 
 /-- Whatever `slice` / `read` hand out lies inside the buffer, is aligned as requested and holds at
 least the requested number of bytes (C01 obligation of the two primitives, every view kind). -/
@@ -43,35 +131,64 @@ theorem C05_at_sound (f : Fmt) (k : Kind) (img : Img) (v : View) (hv : fromBytes
     (a : Addr) (min align : Nat) (ha : match a with | .rva r => r < 4294967296 | .va x => x < v.fmt.vaLimit)
     (ref : Ref) (h : v.at a min align = .ok ref) :
     RefOK v.img ref ∧ min ≤ ref.len ∧ ref.align = align := by
-  sorry
+  obtain ⟨_, rfl⟩ := (fromBytes_ok_iff _ _ _ _).1 hv
+  have hs : ∀ s ∈ sections img.bytes, s.InRange := C07_sections_in_range _
+  cases a with
+  | rva r =>
+    cases k
+    · have h' : sliceFile img (sections img.bytes) r min align = .ok ref := h
+      obtain ⟨hok, hm, _⟩ := C04_slice_file_sound img _ hs r min align ha ref h'
+      exact ⟨hok, hm, (sliceFile_sound' hs h').2.2⟩
+    · have h' : sliceSection img r min align = .ok ref := h
+      exact sliceSection_sound h'
+  | va x =>
+    cases k
+    · have h' : readFile img (sections img.bytes) (imageBaseField f img.bytes) (sizeOfImage img.bytes)
+          x min align = .ok ref := h
+      exact readFile_sound hs h'
+    · have h' : readSection img (imageBaseField f img.bytes) (sizeOfImage img.bytes) x min align = .ok ref := h
+      exact readSection_sound h'
 
 /-- A zero address always yields the null error, for every typed read. -/
 theorem C05_null (v : View) (min align : Nat) :
     v.at (.rva 0) min align = .err .null ∧ v.at (.va 0) min align = .err .null := by
-  sorry
+  unfold View.at View.slice View.read
+  cases v.kind <;> simp [sliceFile, sliceSection, readFile, readSection]
 
 /-- Aligned struct read: the reference is the first `size` bytes of the untyped slice. -/
 theorem C05_derva (v : View) (a : Addr) (size align : Nat) (ref : Ref) :
     v.derva a size align = .ok ref ↔
       ∃ s, v.at a size align = .ok s ∧ ref = ⟨s.off, size, align⟩ := by
-  sorry
+  unfold View.derva
+  cases h : v.at a size align <;> simp [eq_comm]
 
 /-- Unaligned copy: the little-endian value of the first `size` bytes of the untyped slice. -/
 theorem C05_derva_copy (v : View) (a : Addr) (size : Nat) (x : Nat) :
     v.dervaCopy a size = .ok x ↔ ∃ s, v.at a size 1 = .ok s ∧ x = leN v.b s.off size := by
-  sorry
+  unfold View.dervaCopy
+  cases h : v.at a size 1 <;> simp [eq_comm]
 
 /-- Copy-into: exactly the first `len` bytes of the untyped slice, or an error (never fewer). -/
 theorem C05_derva_into (v : View) (a : Addr) (len : Nat) (out : List UInt8) :
     v.dervaInto a len = .ok out ↔
       ∃ s, v.at a len 1 = .ok s ∧ out.length = len ∧ ∀ i, i < len → out[i]? = some (v.b.getD (s.off + i) 0) := by
-  sorry
+  unfold View.dervaInto
+  cases h : v.at a len 1 with
+  | ok r => simp only [Out.ok.injEq, exists_eq_left']; exact map_range_eq_iff _ _ _
+  | _ => simp
 
 /-- Fixed-length array: `len` elements, only if all of them are inside the slice. -/
 theorem C05_derva_slice (v : View) (a : Addr) (size align len : Nat) (ref : Ref) :
     v.dervaSlice a size align len = .ok ref ↔
       size * len < 18446744073709551616 ∧ ∃ s, v.at a (size * len) align = .ok s ∧ ref = ⟨s.off, size * len, align⟩ := by
-  sorry
+  unfold View.dervaSlice
+  by_cases ho : size * len ≥ 18446744073709551616
+  · rw [if_pos ho]
+    constructor
+    · intro h; cases h
+    · intro h; omega
+  · rw [if_neg ho]
+    cases h : v.at a (size * len) align <;> simp [eq_comm] <;> omega
 
 /-- Sentinel-terminated array: the elements before the FIRST element equal to the sentinel, and the
 sentinel itself lies inside the slice; if the slice ends first the read fails with `Bounds` — never a
@@ -85,7 +202,28 @@ theorem C05_derva_slice_s (v : View) (a : Addr) (size align sentinel : Nat) (hs 
     ((∀ j, (j + 1) * size ≤ s.len → leN v.b (s.off + j * size) size ≠ sentinel) →
         v.dervaSliceS a size align sentinel = .err .bounds) ∧
     v.dervaSliceS a size align sentinel ≠ .diverge := by
-  sorry
+  unfold View.dervaSliceS View.dervaSliceF
+  rw [hat]
+  simp only
+  refine ⟨?_, ?_, ?_⟩
+  · intro ref h
+    cases hL : sliceFLoop v.b s.off s.len size (fun x => x == sentinel) (s.len + 2) 0 with
+    | ok n =>
+      rw [hL] at h
+      cases h
+      obtain ⟨_, h2, h3, h4⟩ := sliceFLoop_ok _ _ _ hL
+      refine ⟨n, rfl, h2, by simpa using h3, ?_⟩
+      intro j hj
+      simpa using h4 j (Nat.zero_le _) hj
+    | _ => rw [hL] at h; cases h
+  · intro hns
+    rw [sliceFLoop_bounds (b := v.b) (off := s.off) (blen := s.len) (stop := fun x => x == sentinel) hs
+      (s.len + 2) 0 (by omega) (by omega) (fun j _ hj => by simpa using hns j hj)]
+  · have := sliceFLoop_ne_diverge (b := v.b) (off := s.off) (blen := s.len)
+      (stop := fun x => x == sentinel) hs (s.len + 2) 0 (by omega) (by omega)
+    cases hL : sliceFLoop v.b s.off s.len size (fun x => x == sentinel) (s.len + 2) 0 with
+    | diverge => exact absurd hL this
+    | _ => intro h; cases h
 
 /-- C string: up to and including the first NUL of the slice; no NUL in the slice → `Encoding`. -/
 theorem C05_derva_cstr (v : View) (a : Addr) (s : Ref) (hat : v.at a 0 1 = .ok s) :
@@ -93,24 +231,86 @@ theorem C05_derva_cstr (v : View) (a : Addr) (s : Ref) (hat : v.at a 0 1 = .ok s
         ref.off = s.off ∧ 1 ≤ ref.len ∧ ref.len ≤ s.len ∧ byteAt v.b (s.off + ref.len - 1) = 0 ∧
         ∀ j, j + 1 < ref.len → byteAt v.b (s.off + j) ≠ 0) ∧
     ((∀ j, j < s.len → byteAt v.b (s.off + j) ≠ 0) → v.dervaCStr a = .err .encoding) := by
-  sorry
+  unfold View.dervaCStr cstrFromBytes
+  rw [hat]
+  simp only
+  refine ⟨?_, ?_⟩
+  · intro ref h
+    cases hf : findNul v.b s.off s.len 0 with
+    | none => rw [hf] at h; cases h
+    | some n =>
+      rw [hf] at h
+      cases h
+      obtain ⟨_, h2, h3, h4⟩ := findNul_some _ _ _ hf
+      refine ⟨rfl, by simp, by simp; omega, ?_, ?_⟩
+      · show byteAt v.b (s.off + (n + 1) - 1) = 0
+        rw [show s.off + (n + 1) - 1 = s.off + n by omega]; exact h3
+      · intro j hj
+        exact h4 j (Nat.zero_le _) (by simp at hj; omega)
+  · intro hnn
+    rw [findNul_none s.len 0 (fun j _ hj => hnn j (by omega))]
 
 /-- Length-prefixed wide string (type not exported by the crate; stated on the model of
 `WideStr::from_bytes`): the length word plus that many words, only if they fit. -/
 theorem C05_wstr (b : Bytes) (off len : Nat) (ref : Ref) :
     wstrFromBytes b off len = some ref ↔
       (le16 b off + 1) * 2 ≤ len ∧ ref = ⟨off, (le16 b off + 1) * 2, 2⟩ := by
-  sorry
+  unfold wstrFromBytes
+  simp only
+  by_cases hc : (le16 b off + 1) * 2 > len
+  · rw [if_pos hc]
+    constructor
+    · intro h; cases h
+    · intro h; omega
+  · rw [if_neg hc]
+    constructor
+    · intro h; cases h; exact ⟨by omega, rfl⟩
+    · intro h; rw [h.2]
 
 /-- Prefix monotonicity: a C-string / sentinel scan that succeeds inside a window returns the same
 result inside every longer window starting at the same place (used by C06: file → mapped view). -/
 theorem C05_cstr_prefix_mono (b : Bytes) (off len len' : Nat) (hl : len ≤ len') (ref : Ref)
     (h : cstrFromBytes b off len = some ref) : cstrFromBytes b off len' = some ref := by
-  sorry
+  unfold cstrFromBytes at h ⊢
+  cases hf : findNul b off len 0 with
+  | none => rw [hf] at h; cases h
+  | some n =>
+    rw [hf] at h
+    rw [findNul_mono len len' 0 n hl hf]
+    exact h
 
 theorem C05_sentinel_prefix_mono (b : Bytes) (off blen blen' size : Nat) (stop : Nat → Bool) (hl : blen ≤ blen')
     (fuel fuel' n : Nat) (hf : fuel ≤ fuel') (h : sliceFLoop b off blen size stop fuel 0 = .ok n) :
     sliceFLoop b off blen' size stop fuel' 0 = .ok n := by
-  sorry
+  exact sliceFLoop_mono hl fuel fuel' 0 n hf h
+
+/-! ### non-vacuity: a minimal accepted PE32 image (200 bytes, no sections, mapped), data after the headers -/
+
+/-- DOS header, `e_lfanew = 64`, NT headers (PE32, ImageBase 0x400000, SizeOfImage 200, SizeOfHeaders 184),
+then `"ab\0"` at 184 and the u16 table `1, 2, 0xffff` at 188 -/
+def demoImg : Img := ⟨
+    #[77, 90, 0, 0, 0, 0, 0, 0, 0, 0, 0, 0, 0, 0, 0, 0, 0, 0, 0, 0, 0, 0, 0, 0, 0, 0, 0, 0, 0, 0, 0, 0,
+    0, 0, 0, 0, 0, 0, 0, 0, 0, 0, 0, 0, 0, 0, 0, 0, 0, 0, 0, 0, 0, 0, 0, 0, 0, 0, 0, 0, 64, 0, 0, 0, 80,
+    69, 0, 0, 0, 0, 0, 0, 0, 0, 0, 0, 0, 0, 0, 0, 0, 0, 0, 0, 96, 0, 0, 0, 11, 1, 0, 0, 0, 0, 0, 0, 0,
+    0, 0, 0, 0, 0, 0, 0, 0, 0, 0, 0, 0, 0, 0, 0, 0, 0, 0, 0, 0, 0, 64, 0, 0, 0, 0, 0, 0, 0, 0, 0, 0, 0,
+    0, 0, 0, 0, 0, 0, 0, 0, 0, 0, 0, 0, 0, 0, 200, 0, 0, 0, 184, 0, 0, 0, 0, 0, 0, 0, 0, 0, 0, 0, 0, 0,
+    0, 0, 0, 0, 0, 0, 0, 0, 0, 0, 0, 0, 0, 0, 0, 0, 0, 0, 0, 0, 0, 0, 97, 98, 0, 0, 1, 0, 2, 0, 255,
+    255, 0, 0, 0, 0, 0, 0], 0⟩
+
+def demoView : View := ⟨demoImg, .pe32, .view, 0x400000⟩
+
+example : fromBytes .pe32 .view demoImg = .ok demoView ∧ demoView.NoWrap ∧ sizeOfImage demoView.b = 200 ∧
+    demoView.rvaToVa 184 = .ok 0x4000b8 ∧ demoView.vaToRva 0x4000b8 = .ok 184 ∧
+    demoView.at (.rva 184) 0 1 = .ok ⟨184, 16, 1⟩ ∧ demoView.at (.va 0x4000b8) 0 1 = .ok ⟨184, 16, 1⟩ ∧
+    demoView.dervaCStr (.rva 184) = .ok ⟨184, 3, 1⟩ ∧
+    demoView.at (.rva 188) 0 2 = .ok ⟨188, 12, 2⟩ ∧
+    demoView.dervaSliceS (.rva 188) 2 2 0xffff = .ok ⟨188, 4, 2⟩ ∧
+    demoView.dervaSliceS (.va 0x4000bc) 2 2 0x1234 = .err .bounds ∧
+    demoView.dervaCopy (.rva 190) 2 = .ok 2 ∧
+    demoView.derva (.rva 189) 2 2 = .err .misaligned := by
+  refine ⟨(fromBytes_ok_iff _ _ _ _).2 ⟨by decide +kernel,
+    by rw [show imageBaseField .pe32 demoImg.bytes = 0x400000 by decide +kernel]; rfl⟩, ?_⟩
+  unfold View.NoWrap
+  decide +kernel
 
 end Pelite.Pe
